@@ -3,9 +3,11 @@ C20 — model validation is sound and complete for references.
 Property theorems only (helper lemmas: GlotaranProofs/Lemmas/C20.lean).
 
 All statements are about `Glotaran.C20.getIssues` / `fillItem` / `generateParameters`, for
-EVERY schema table `sch`, every abstract model `m` (any number of collections, items,
-attributes, labels), every parameter set and every family of custom validators `cv`.
-The two theorems `generated_schema_*` are about the table regenerated from the source.
+EVERY schema table `sch`, EVERY validator table `vt` (validator function name → predicate of the
+language `VPred`, interpreted by `interpPred`), every abstract model `m` (any number of
+collections, items, attributes, labels), every parameter set and every family `cv` of abstract
+validators (only what the translator could not express is abstract).
+The theorems `generated_*` are about the tables regenerated from the source.
 
 History: before fix D11 `megacomplexValidator` looked every listed label up with
 `model.megacomplex[label]`; for an undefined label the outcome was `.error (.keyError …)`,
@@ -33,34 +35,40 @@ def AllResolve (sch : Schema) (m : Model) (ps : Option (List String)) : Prop :=
   (∀ coll l, ¬ DanglingItem sch m coll l) ∧
   (∀ P, ps = some P → ∀ l, ¬ DanglingParam sch m P l)
 
-/-- every validator is satisfied: megacomplex lists obey exclusive / unique, the measured
-    lists have equal lengths, custom validators have no complaint -/
-def ValidatorsQuiet (cv : CustomValidators) (sch : Schema) (m : Model) : Prop :=
-  ∀ it ∈ allItems m, ∀ a ∈ (specOf sch it.spec).attrs,
-    match a.validator with
-    | .none => True
-    | .megacomplexes => ∀ ls c, it.valOf a.name = .list ls → findColl m "megacomplex" = some c →
-        ExclusiveUniqueOK sch (ls.filterMap c.findItem)
-    | .sameLength as => ∀ lens, collectM (lenOf it) as = .ok lens → allSame lens = true
-    | .custom n => cv n it = []
+/-- a validator has nothing to complain about: a translated one is not violated (specification
+    `Violated`: the resolved megacomplexes obey the rules, the measured lists have equal lengths, the
+    stored labels are defined); an abstract one returns nothing -/
+def PredQuiet (cv : CustomValidators) (sch : Schema) (m : Model) (it : Item) (a : AttrSpec) :
+    VPred → Prop
+  | .opaque n => cv n it = []
+  | .untranslatable r => cv r it = []
+  | p => ¬ Violated sch m it a p
+
+/-- every validator is satisfied -/
+def ValidatorsQuiet (cv : CustomValidators) (vt : VTable) (sch : Schema) (m : Model) : Prop :=
+  ∀ it ∈ allItems m, ∀ a ∈ (specOf sch it.spec).attrs, ∀ n, a.validator = .named n →
+    PredQuiet cv sch m it a (predOf vt n)
 
 /-! ### never an internal error -/
 
-/-- **Validation is total**: for a well-shaped model over a closed schema `get_issues` returns a
-    list of issues — no `KeyError`, `AttributeError`, … escapes, whatever dangles. -/
-theorem never_internal_error (cv : CustomValidators) (sch : Schema) (m : Model)
-    (ps : Option (List String)) (hs : WellShaped sch m) (hc : Closed sch m) :
-    ∃ iss, getIssues cv sch m ps = .ok iss := by
+/-- **Validation is total**: for a well-shaped model over a closed schema, with validators that
+    guard against `None` and skip undefined labels (`tableSafe`: decided for the regenerated
+    table, false for the table of the code before fix D11), `get_issues` returns a list of issues
+    — no `KeyError`, `AttributeError`, … escapes, whatever dangles. -/
+theorem never_internal_error (cv : CustomValidators) (vt : VTable) (sch : Schema) (m : Model)
+    (ps : Option (List String)) (hs : WellShaped vt sch m) (hc : Closed vt sch m)
+    (ht : tableSafe vt = true) :
+    ∃ iss, getIssues cv vt sch m ps = .ok iss := by
   unfold getIssues
   apply collectM_isOk
   intro it hit
-  exact itemIssues_isOk (hs it hit) (hc it hit)
+  exact itemIssues_isOk (hs it hit) (hc it hit) ht
 
 /-! ### completeness -/
 
 /-- every dangling model-item reference is reported as `Missing model item 'coll' with label 'l'` -/
-theorem complete_items (cv : CustomValidators) (sch : Schema) (m : Model)
-    (ps : Option (List String)) (iss : List Issue) (h : getIssues cv sch m ps = .ok iss)
+theorem complete_items (cv : CustomValidators) (vt : VTable) (sch : Schema) (m : Model)
+    (ps : Option (List String)) (iss : List Issue) (h : getIssues cv vt sch m ps = .ok iss)
     (coll l : String) (hd : DanglingItem sch m coll l) : Issue.missingItem coll l ∈ iss := by
   obtain ⟨it, hit, a, ha, hk, ls, hls, hl, hno⟩ := hd
   obtain ⟨r, hr⟩ := collectM_each h it hit
@@ -85,8 +93,8 @@ theorem complete_items (cv : CustomValidators) (sch : Schema) (m : Model)
   simp [hmem]
 
 /-- every dangling parameter reference is reported as `Missing parameter with label 'l'` -/
-theorem complete_parameters (cv : CustomValidators) (sch : Schema) (m : Model)
-    (P : List String) (iss : List Issue) (h : getIssues cv sch m (some P) = .ok iss)
+theorem complete_parameters (cv : CustomValidators) (vt : VTable) (sch : Schema) (m : Model)
+    (P : List String) (iss : List Issue) (h : getIssues cv vt sch m (some P) = .ok iss)
     (l : String) (hd : DanglingParam sch m P l) : Issue.missingParam l ∈ iss := by
   obtain ⟨it, hit, a, ha, hk, ls, hls, hl, hno⟩ := hd
   obtain ⟨r, hr⟩ := collectM_each h it hit
@@ -103,51 +111,180 @@ theorem complete_parameters (cv : CustomValidators) (sch : Schema) (m : Model)
     dangling reference — model items referenced from any item of any collection (scalar, list,
     dict positions; the megacomplexes of a dataset are the instance `coll = "megacomplex"`) and,
     when parameters are given, every parameter label that is not in the set. -/
-theorem complete (cv : CustomValidators) (sch : Schema) (m : Model) (ps : Option (List String))
-    (hs : WellShaped sch m) (hc : Closed sch m) :
-    ∃ iss, getIssues cv sch m ps = .ok iss ∧
+theorem complete (cv : CustomValidators) (vt : VTable) (sch : Schema) (m : Model) (ps : Option (List String))
+    (hs : WellShaped vt sch m) (hc : Closed vt sch m)
+    (ht : tableSafe vt = true) :
+    ∃ iss, getIssues cv vt sch m ps = .ok iss ∧
       (∀ coll l, DanglingItem sch m coll l → Issue.missingItem coll l ∈ iss) ∧
       (∀ P, ps = some P → ∀ l, DanglingParam sch m P l → Issue.missingParam l ∈ iss) := by
-  obtain ⟨iss, h⟩ := never_internal_error cv sch m ps hs hc
-  refine ⟨iss, h, fun coll l hd => complete_items cv sch m ps iss h coll l hd, ?_⟩
+  obtain ⟨iss, h⟩ := never_internal_error cv vt sch m ps hs hc ht
+  refine ⟨iss, h, fun coll l hd => complete_items cv vt sch m ps iss h coll l hd, ?_⟩
   intro P hP l hd
   subst hP
-  exact complete_parameters cv sch m P iss h l hd
+  exact complete_parameters cv vt sch m P iss h l hd
+
+/-- **Validation looks at every position of the walk**: a label the model walker `walkItem`
+    lists for an item of the model (the walker that `walker_positions_generated` ties to the live
+    `iterate_names_and_labels` / `fill_item_attributes`) is reported when it is not defined. -/
+theorem walk_positions_checked (cv : CustomValidators) (vt : VTable) (sch : Schema) (m : Model)
+    (ps : Option (List String)) (iss : List Issue) (h : getIssues cv vt sch m ps = .ok iss)
+    (it : Item) (hit : it ∈ allItems m) :
+    (∀ w coll l, walkItem sch true it = .ok w → (coll, l) ∈ w →
+      (∀ c, findColl m coll = some c → c.hasLabel l = false) → Issue.missingItem coll l ∈ iss) ∧
+    (∀ w P name l, walkItem sch false it = .ok w → ps = some P → (name, l) ∈ w → l ∉ P →
+      Issue.missingParam l ∈ iss) := by
+  constructor
+  · intro w coll l hw hmem hno
+    obtain ⟨a, ha, r, hr, hin⟩ := (collectM_mem hw _).mp hmem
+    refine complete_items cv vt sch m ps iss h coll l ⟨it, hit, a, ha, ?_⟩
+    unfold attrWalk at hr
+    cases hk : a.kind with
+    | item c =>
+      simp only [hk, if_true] at hr
+      cases hl : it.labels a with
+      | error e => simp [hl] at hr
+      | ok ls =>
+        simp only [hl, Except.ok.injEq] at hr
+        subst hr
+        simp only [List.mem_map, Prod.mk.injEq] at hin
+        obtain ⟨x, hx, rfl, rfl⟩ := hin
+        exact ⟨rfl, ls, rfl, hx, hno⟩
+    | param => simp only [hk, if_true, Except.ok.injEq] at hr; subst hr; cases hin
+    | plain => simp only [hk, Except.ok.injEq] at hr; subst hr; cases hin
+  · intro w P name l hw hps hmem hno
+    subst hps
+    obtain ⟨a, ha, r, hr, hin⟩ := (collectM_mem hw _).mp hmem
+    refine complete_parameters cv vt sch m P iss h l ⟨it, hit, a, ha, ?_⟩
+    unfold attrWalk at hr
+    cases hk : a.kind with
+    | param =>
+      simp only [hk, Bool.false_eq_true, if_false] at hr
+      cases hl : it.labels a with
+      | error e => simp [hl] at hr
+      | ok ls =>
+        simp only [hl, Except.ok.injEq] at hr
+        subst hr
+        simp only [List.mem_map, Prod.mk.injEq] at hin
+        obtain ⟨x, hx, _, rfl⟩ := hin
+        exact ⟨rfl, ls, rfl, hx, hno⟩
+    | item c => simp only [hk, Bool.false_eq_true, if_false, Except.ok.injEq] at hr; subst hr; cases hin
+    | plain => simp only [hk, Except.ok.injEq] at hr; subst hr; cases hin
+
+/-! ### the interpreted validators -/
+
+/-- **Every violated validator is reported, and only those**: for an attribute whose validator the
+    translator expressed in the predicate language, the validator's contribution to the issues of
+    the model is non-empty exactly when the specification `Violated` holds (resolved megacomplexes
+    break an exclusive / unique rule, two measured lengths differ, a stored label is not defined),
+    and every issue of the contribution is among the reported issues. -/
+theorem validators_reported (cv : CustomValidators) (vt : VTable) (sch : Schema) (m : Model)
+    (ps : Option (List String)) (iss : List Issue) (h : getIssues cv vt sch m ps = .ok iss)
+    (it : Item) (hit : it ∈ allItems m) (a : AttrSpec) (ha : a ∈ (specOf sch it.spec).attrs)
+    (n : String) (hv : a.validator = .named n) (htr : (predOf vt n).translated = true) :
+    ∃ r, interpPred cv sch m it a (predOf vt n) = .ok r ∧ (∀ i ∈ r, i ∈ iss) ∧
+      (r ≠ [] ↔ Violated sch m it a (predOf vt n)) := by
+  obtain ⟨ri, hri⟩ := collectM_each h it hit
+  obtain ⟨i1, i2, i3, _, h2, _, rfl⟩ := itemIssues_ok hri
+  obtain ⟨r2, hr2⟩ := collectM_each h2 a ha
+  have hr2' : interpPred cv sch m it a (predOf vt n) = .ok r2 := by
+    simpa [attrValidatorIssues, hv] using hr2
+  refine ⟨r2, hr2', ?_, interpPred_nonempty_iff htr hr2'⟩
+  intro i hi
+  refine (collectM_mem h _).mpr ⟨it, hit, _, hri, ?_⟩
+  have : i ∈ i2 := (collectM_mem h2 _).mpr ⟨a, ha, r2, hr2, hi⟩
+  simp [this]
+
+/-- **Every reported issue is justified**: an issue of `get_issues` is a dangling model-item
+    reference, a dangling parameter reference, or comes from the validator of some attribute of
+    some item — and if that validator is a translated one, it is violated. -/
+theorem issues_justified (cv : CustomValidators) (vt : VTable) (sch : Schema) (m : Model)
+    (ps : Option (List String)) (iss : List Issue) (h : getIssues cv vt sch m ps = .ok iss)
+    (i : Issue) (hi : i ∈ iss) :
+    (∃ coll l, i = .missingItem coll l ∧ DanglingItem sch m coll l) ∨
+    (∃ P l, ps = some P ∧ i = .missingParam l ∧ DanglingParam sch m P l) ∨
+    (∃ it ∈ allItems m, ∃ a ∈ (specOf sch it.spec).attrs, ∃ n r, a.validator = .named n ∧
+      interpPred cv sch m it a (predOf vt n) = .ok r ∧ i ∈ r ∧
+      ((predOf vt n).translated = true → Violated sch m it a (predOf vt n))) := by
+  obtain ⟨it, hit, r, hr, hir⟩ := (collectM_mem h _).mp hi
+  obtain ⟨i1, i2, i3, h1, h2, h3, rfl⟩ := itemIssues_ok hr
+  simp only [List.mem_append] at hir
+  rcases hir with (hi1 | hi2) | hi3
+  · obtain ⟨a, ha, r1, hr1, hi1⟩ := (collectM_mem h1 _).mp hi1
+    obtain ⟨coll, ls, l, c, hk, hls, hl, hcc, hno, rfl⟩ := (attrItemIssues_mem hr1 _).mp hi1
+    refine Or.inl ⟨coll, l, rfl, it, hit, a, ha, hk, ls, hls, hl, ?_⟩
+    intro c' hc'
+    rw [hcc] at hc'
+    cases hc'
+    exact hno
+  · obtain ⟨a, ha, r2, hr2, hi2⟩ := (collectM_mem h2 _).mp hi2
+    cases hv : a.validator with
+    | none => simp [attrValidatorIssues, hv] at hr2; subst hr2; cases hi2
+    | named n =>
+      have hr2' : interpPred cv sch m it a (predOf vt n) = .ok r2 := by
+        simpa [attrValidatorIssues, hv] using hr2
+      refine Or.inr (Or.inr ⟨it, hit, a, ha, n, r2, hv, hr2', hi2, ?_⟩)
+      intro htr
+      exact (interpPred_nonempty_iff htr hr2').mp (List.ne_nil_of_mem hi2)
+  · cases ps with
+    | none => simp only at h3; subst h3; cases hi3
+    | some P =>
+      simp only at h3
+      obtain ⟨a, ha, r3, hr3, hi3⟩ := (collectM_mem h3 _).mp hi3
+      obtain ⟨ls, l, hk, hls, hl, hno, rfl⟩ := (attrParamIssues_mem hr3 _).mp hi3
+      exact Or.inr (Or.inl ⟨P, l, rfl, rfl, it, hit, a, ha, hk, ls, hls, hl, hno⟩)
 
 /-- **Exclusive / unique violations are reported**: if the defined megacomplexes listed by an
-    attribute validated by `validate_megacomplexes` break the rule, an exclusive or unique issue
+    attribute whose validator resolves them (`validate_megacomplexes`,
+    `validate_global_megacomplexes`) break a rule of that validator, an exclusive or unique issue
     is among the reported issues. -/
-theorem exclusive_unique_reported (cv : CustomValidators) (sch : Schema) (m : Model)
-    (ps : Option (List String)) (iss : List Issue) (h : getIssues cv sch m ps = .ok iss)
+theorem exclusive_unique_reported (cv : CustomValidators) (vt : VTable) (sch : Schema) (m : Model)
+    (ps : Option (List String)) (iss : List Issue) (h : getIssues cv vt sch m ps = .ok iss)
     (it : Item) (hit : it ∈ allItems m) (a : AttrSpec) (ha : a ∈ (specOf sch it.spec).attrs)
-    (hv : a.validator = .megacomplexes) (ls : List String) (hval : it.valOf a.name = .list ls)
-    (c : Coll) (hc : findColl m "megacomplex" = some c)
-    (hbad : ¬ ExclusiveUniqueOK sch (ls.filterMap c.findItem)) :
+    (n coll : String) (g s : Bool) (rules : List McRule) (hv : a.validator = .named n)
+    (hp : predOf vt n = .resolved coll g s rules) (ls : List String)
+    (hval : it.valOf a.name = .list ls) (c : Coll) (hc : findColl m coll = some c)
+    (hbad : ¬ RulesOK sch rules (ls.filterMap c.findItem)) :
     ∃ i ∈ iss, (∃ l t, i = .exclusive l t) ∨ (∃ l t, i = .unique l t) := by
-  have hne : megacomplexIssues sch (ls.filterMap c.findItem) ≠ [] :=
-    fun hnil => hbad ((megacomplexIssues_nil_iff sch _).mp hnil)
+  obtain ⟨r, hr, hsub, hiff⟩ := validators_reported cv vt sch m ps iss h it hit a ha n hv
+    (by rw [hp]; rfl)
+  rw [hp] at hr hiff
+  have hne : r ≠ [] := hiff.mpr ⟨ls, c, hval, hc, hbad⟩
   obtain ⟨i, hi⟩ := List.exists_mem_of_ne_nil _ hne
-  refine ⟨i, ?_, megacomplexIssues_kind hi⟩
-  obtain ⟨r, hr⟩ := collectM_each h it hit
-  refine (collectM_mem h _).mpr ⟨it, hit, r, hr, ?_⟩
-  obtain ⟨i1, i2, i3, _, h2, _, rfl⟩ := itemIssues_ok hr
-  obtain ⟨r2, hr2⟩ := collectM_each h2 a ha
-  have hmem : i ∈ i2 := by
-    refine (collectM_mem h2 _).mpr ⟨a, ha, r2, hr2, ?_⟩
-    unfold attrValidatorIssues at hr2
-    simp only [hv, megacomplexValidator, hval, hc] at hr2
-    cases hr2
-    exact hi
-  simp [hmem]
+  refine ⟨i, hsub i hi, ?_⟩
+  simp only [interpPred, hval, hc] at hr
+  split at hr
+  · cases hr
+  · cases hr
+    exact ruleIssues_kind hi
+
+/-- **Labels stored as plain strings are references too** (`DatasetModel.group`,
+    `Weight.datasets` after the fix): for an attribute whose validator is `definedIn coll`, every
+    stored label that is not a label of `coll` is reported as a missing model item. -/
+theorem defined_in_reported (cv : CustomValidators) (vt : VTable) (sch : Schema) (m : Model)
+    (ps : Option (List String)) (iss : List Issue) (h : getIssues cv vt sch m ps = .ok iss)
+    (it : Item) (hit : it ∈ allItems m) (a : AttrSpec) (ha : a ∈ (specOf sch it.spec).attrs)
+    (n coll rep : String) (hv : a.validator = .named n) (hp : predOf vt n = .definedIn coll rep)
+    (ls : List String) (hls : plainLabels it a.name = .ok ls) (l : String) (hl : l ∈ ls)
+    (c : Coll) (hc : findColl m coll = some c) (hno : c.hasLabel l = false) :
+    Issue.missingItem rep l ∈ iss := by
+  obtain ⟨r, hr, hsub, _⟩ := validators_reported cv vt sch m ps iss h it hit a ha n hv
+    (by rw [hp]; rfl)
+  apply hsub
+  rw [hp] at hr
+  simp only [interpPred, hls, hc, Except.ok.injEq] at hr
+  subst hr
+  exact List.mem_map.mpr ⟨l, List.mem_filter.mpr ⟨hl, by simp [hno]⟩, rfl⟩
 
 /-! ### soundness -/
 
 /-- **Soundness**: a model whose references all resolve and whose validators are satisfied gets
     no issue at all. -/
-theorem sound (cv : CustomValidators) (sch : Schema) (m : Model) (ps : Option (List String))
-    (hs : WellShaped sch m) (hc : Closed sch m) (hres : AllResolve sch m ps)
-    (hq : ValidatorsQuiet cv sch m) : getIssues cv sch m ps = .ok [] := by
-  obtain ⟨iss, h⟩ := never_internal_error cv sch m ps hs hc
+theorem sound (cv : CustomValidators) (vt : VTable) (sch : Schema) (m : Model)
+    (ps : Option (List String))
+    (hs : WellShaped vt sch m) (hc : Closed vt sch m) (ht : tableSafe vt = true)
+    (hres : AllResolve sch m ps)
+    (hq : ValidatorsQuiet cv vt sch m) : getIssues cv vt sch m ps = .ok [] := by
+  obtain ⟨iss, h⟩ := never_internal_error cv vt sch m ps hs hc ht
   rw [h]
   congr
   refine collectM_nil_of h ?_
@@ -167,33 +304,35 @@ theorem sound (cv : CustomValidators) (sch : Schema) (m : Model) (ps : Option (L
   have e2 : i2 = [] := by
     refine collectM_nil_of h2 ?_
     intro a ha r2 hr2
-    have hqa := hq it hit a ha
-    unfold attrValidatorIssues at hr2
     cases hv : a.validator with
-    | none => simp only [hv] at hr2; cases hr2; rfl
-    | megacomplexes =>
-      simp only [hv] at hr2 hqa
-      simp only [megacomplexValidator] at hr2
-      split at hr2
-      · cases hr2; rfl
-      · rename_i ls hval
-        split at hr2
-        · cases hr2
-        · rename_i c hcc
-          cases hr2
-          exact (megacomplexIssues_nil_iff sch _).mpr (hqa ls c hval hcc)
-      · cases hr2
-    | sameLength as =>
-      simp only [hv] at hr2 hqa
-      split at hr2
-      · cases hr2
-      · rename_i lens hl
-        cases hr2
-        simp [hqa lens hl]
-    | custom n =>
-      simp only [hv] at hr2 hqa
-      cases hr2
-      simp [hqa]
+    | none => simp [attrValidatorIssues, hv] at hr2; exact hr2
+    | named n =>
+      have hr2' : interpPred cv sch m it a (predOf vt n) = .ok r2 := by
+        simpa [attrValidatorIssues, hv] using hr2
+      have hqa := hq it hit a ha n hv
+      cases hp : predOf vt n with
+      | «opaque» k =>
+        rw [hp] at hr2' hqa
+        simp only [PredQuiet] at hqa
+        simp only [interpPred, hqa, List.map_nil, Except.ok.injEq] at hr2'
+        exact hr2'.symm
+      | untranslatable k =>
+        rw [hp] at hr2' hqa
+        simp only [PredQuiet] at hqa
+        simp only [interpPred, hqa, List.map_nil, Except.ok.injEq] at hr2'
+        exact hr2'.symm
+      | resolved coll g s rules =>
+        rw [hp] at hr2' hqa
+        exact Classical.byContradiction fun hne =>
+          hqa ((interpPred_nonempty_iff rfl hr2').mp hne)
+      | lengthsEqual as =>
+        rw [hp] at hr2' hqa
+        exact Classical.byContradiction fun hne =>
+          hqa ((interpPred_nonempty_iff rfl hr2').mp hne)
+      | definedIn coll rep =>
+        rw [hp] at hr2' hqa
+        exact Classical.byContradiction fun hne =>
+          hqa ((interpPred_nonempty_iff rfl hr2').mp hne)
   have e3 : i3 = [] := by
     cases ps with
     | none => exact h3
@@ -241,12 +380,12 @@ private theorem fillParams_isOk {ps : List String} {it : Item} {a : AttrSpec}
     and item references are acyclic (`rk` decreases along every resolved reference — Python
     would otherwise recurse without bound), `fill_item` succeeds for every item, in particular
     for every dataset, once the recursion budget exceeds the item's rank. -/
-theorem valid_fills (cv : CustomValidators) (sch : Schema) (m : Model) (ps : List String)
+theorem valid_fills (cv : CustomValidators) (vt : VTable) (sch : Schema) (m : Model) (ps : List String)
     (rk : Item → Nat)
     (hrk : ∀ it ∈ allItems m, ∀ a ∈ (specOf sch it.spec).attrs, ∀ coll, a.kind = .item coll →
       ∀ ls, it.labels a = .ok ls → ∀ l ∈ ls, ∀ c, findColl m coll = some c →
       ∀ t, c.findItem l = some t → rk t < rk it)
-    (hvalid : getIssues cv sch m (some ps) = .ok []) :
+    (hvalid : getIssues cv vt sch m (some ps) = .ok []) :
     ∀ (fuel : Nat) (it : Item), it ∈ allItems m → rk it < fuel →
       ∃ f, fillItem sch m ps fuel it = .ok f := by
   intro fuel
@@ -346,11 +485,12 @@ def WellTyped (sch : Schema) (m : Model) : Prop :=
 /-- `valid_fills` for a schema whose reference graph is ranked (as `generated_schema_ranked`
     establishes for the builtin classes): a recursion budget of `rank + 1` suffices — for the
     builtin classes 3 nested `fill_item` calls (dataset → megacomplex → k_matrix / shape). -/
-theorem valid_fills_ranked (cv : CustomValidators) (sch : Schema) (m : Model) (ps : List String)
+theorem valid_fills_ranked (cv : CustomValidators) (vt : VTable) (sch : Schema) (m : Model)
+    (ps : List String)
     (rk : String → Nat) (hr : schemaRanked sch rk = true) (ht : WellTyped sch m)
-    (hvalid : getIssues cv sch m (some ps) = .ok []) (it : Item) (hit : it ∈ allItems m) :
+    (hvalid : getIssues cv vt sch m (some ps) = .ok []) (it : Item) (hit : it ∈ allItems m) :
     ∃ f, fillItem sch m ps (rk (specOf sch it.spec).coll + 1) it = .ok f := by
-  refine valid_fills cv sch m ps (fun x => rk (specOf sch x.spec).coll) ?_ hvalid _ it hit
+  refine valid_fills cv vt sch m ps (fun x => rk (specOf sch x.spec).coll) ?_ hvalid _ it hit
     (Nat.lt_succ_self _)
   intro it' _ a ha coll hk ls _ l _ c hc t hfi
   have hcm : c ∈ m := findColl_mem hc
@@ -371,9 +511,10 @@ theorem valid_fills_ranked (cv : CustomValidators) (sch : Schema) (m : Model) (p
 
 /-- **The parameters generated for a model leave no missing-parameter issue** (and both
     `generate_parameters` and the validation against them terminate normally). -/
-theorem generated_parameters_suffice (cv : CustomValidators) (sch : Schema) (m : Model)
-    (hs : WellShaped sch m) (hc : Closed sch m) :
-    ∃ P iss, generateParameters sch m = .ok P ∧ getIssues cv sch m (some P) = .ok iss ∧
+theorem generated_parameters_suffice (cv : CustomValidators) (vt : VTable) (sch : Schema) (m : Model)
+    (hs : WellShaped vt sch m) (hc : Closed vt sch m)
+    (ht : tableSafe vt = true) :
+    ∃ P iss, generateParameters sch m = .ok P ∧ getIssues cv vt sch m (some P) = .ok iss ∧
       ∀ l, Issue.missingParam l ∉ iss := by
   have hP : ∃ P, parameterLabels sch m = .ok P := by
     unfold parameterLabels
@@ -388,7 +529,7 @@ theorem generated_parameters_suffice (cv : CustomValidators) (sch : Schema) (m :
     | item c => exact ⟨[], rfl⟩
     | plain => exact ⟨[], rfl⟩
   obtain ⟨P, hP⟩ := hP
-  obtain ⟨iss, h⟩ := never_internal_error cv sch m (some P) hs hc
+  obtain ⟨iss, h⟩ := never_internal_error cv vt sch m (some P) hs hc ht
   refine ⟨P, iss, hP, h, ?_⟩
   intro l hmem
   obtain ⟨it, hit, r, hr, hir⟩ := (collectM_mem h _).mp hmem
@@ -400,7 +541,7 @@ theorem generated_parameters_suffice (cv : CustomValidators) (sch : Schema) (m :
     obtain ⟨_, _, _, _, _, _, _, _, _, hne⟩ := (attrItemIssues_mem hr1 _).mp hi1
     cases hne
   · obtain ⟨a, ha, r2, hr2, hi2⟩ := (collectM_mem h2 _).mp hi
-    exact (attrValidatorIssues_kind hr2 hi2).2 l rfl
+    exact attrValidatorIssues_kind hr2 hi2 l rfl
   · obtain ⟨a, ha, r3, hr3, hi3⟩ := (collectM_mem h3 _).mp hi
     obtain ⟨ls, l', hk, hls, hl, hno, he⟩ := (attrParamIssues_mem hr3 _).mp hi3
     cases he
@@ -413,11 +554,60 @@ theorem generated_parameters_suffice (cv : CustomValidators) (sch : Schema) (m :
     refine (collectM_mem hq l).mpr ⟨a, ha, ls, ?_, hl⟩
     simp [attrParamLabels, hk, hls]
 
-/-! ### the regenerated table -/
+/-! ### the regenerated tables -/
 
-/-- every collection an attribute of a builtin class refers to is a keyed collection of the
-    model class (so `getattr(model, name)` cannot fail) — re-decided whenever the table changes -/
-theorem generated_schema_closed : schemaClosed Generated.schema Generated.keyed = true := by
+/-- what the modeller claims the validator functions of the builtin classes check — the
+    hand-written side of `generated_validators_eq_model` -/
+def builtinValidators : VTable := [
+  ("glotaran.builtin.megacomplexes.damped_oscillation.damped_oscillation_megacomplex.validate_oscillation_parameter",
+    .lengthsEqual ["labels", "frequencies", "rates"]),
+  ("glotaran.builtin.megacomplexes.pfid.pfid_megacomplex.validate_pfid_parameter",
+    .lengthsEqual ["labels", "frequencies", "rates"]),
+  ("glotaran.model.dataset_model.validate_dataset_group", .definedIn "dataset_groups" "dataset_groups"),
+  ("glotaran.model.dataset_model.validate_global_megacomplexes", .resolved "megacomplex" true true stdRules),
+  ("glotaran.model.dataset_model.validate_megacomplexes", .resolved "megacomplex" true true stdRules),
+  ("glotaran.model.weight.validate_weight_datasets", .definedIn "dataset" "dataset")]
+
+/-- **the validator functions of the live classes check what the model says they check**: the
+    table translated from their source on this run is the hand-written one (an edit of a validator
+    that changes the translated predicate, or makes it untranslatable, re-opens this theorem) -/
+theorem generated_validators_eq_model : Generated.validators = builtinValidators := by
+  decide
+
+/-- no builtin validator is abstract, none can raise: every one resolves labels behind a `None`
+    guard and skips undefined labels (fix D11) -/
+theorem generated_validators_safe :
+    tableSafe Generated.validators = true ∧
+    Generated.validators.all (fun e => e.2.translated) = true ∧
+    Generated.otherHooks = [] := by
+  decide
+
+/-- every validator attached to an attribute of a builtin class has an entry in the table -/
+theorem generated_validators_cover :
+    (Generated.schema.all fun s => s.attrs.all fun a =>
+      match a.validator with
+      | .named n => Generated.validators.any (fun e => e.1 = n) &&
+          Generated.validatorUses.contains (s.key, a.name, n)
+      | .none => true) = true := by
+  decide
+
+/-- **the model walker visits exactly the positions the live walkers visit**: every builtin class
+    was probed with every reference attribute full (a label / two list elements / two dict values,
+    all labels distinct), empty (`""`, `[]`, `{}`) and `None`, and on every probe the positions
+    `walkItem` lists — those `attrItemIssues`, `attrParamIssues`, `fillAttr`, `fillParams` look at
+    — are, in order, the `(name, label)` pairs `iterate_model_item_names_and_labels` /
+    `iterate_parameter_names_and_labels` yielded and `fill_item_attributes` filled.  An edit that
+    makes a live walker skip a kind of container (dict values, Optional lists, aliased attributes)
+    changes the regenerated rows and re-opens this theorem. -/
+theorem walker_positions_generated :
+    Generated.walker.all (rowAgrees Generated.schema) = true ∧
+    walkerCovers Generated.schema Generated.walker = true := by
+  constructor <;> decide
+
+/-- every collection an attribute or a validator of a builtin class refers to is a keyed collection
+    of the model class (so `getattr(model, name)` cannot fail) — re-decided whenever a table changes -/
+theorem generated_schema_closed :
+    schemaClosed Generated.validators Generated.schema Generated.keyed = true := by
   decide
 
 /-- the item references of the builtin classes are acyclic: the generated rank decreases along
@@ -430,25 +620,76 @@ theorem generated_schema_ranked :
     model class has the keyed collections of the table validates without an internal error and
     names every dangling reference -/
 theorem complete_generated (cv : CustomValidators) (m : Model) (ps : Option (List String))
-    (hs : WellShaped Generated.schema m)
+    (hs : WellShaped Generated.validators Generated.schema m)
     (hm : ∀ c ∈ Generated.keyed, ∃ x, findColl m c = some x) :
-    ∃ iss, getIssues cv Generated.schema m ps = .ok iss ∧
+    ∃ iss, getIssues cv Generated.validators Generated.schema m ps = .ok iss ∧
       (∀ coll l, DanglingItem Generated.schema m coll l → Issue.missingItem coll l ∈ iss) ∧
       (∀ P, ps = some P → ∀ l, DanglingParam Generated.schema m P l → Issue.missingParam l ∈ iss) :=
-  complete cv Generated.schema m ps hs (closed_of_schemaClosed generated_schema_closed hm)
+  complete cv Generated.validators Generated.schema m ps hs
+    (closed_of_schemaClosed generated_schema_closed hm) generated_validators_safe.1
+
+/-- the instance of `sound` for the real classes: nothing abstract is left in the hypothesis — no
+    dangling reference and no violated (translated) validator means no issue -/
+theorem sound_generated (cv : CustomValidators) (m : Model) (ps : Option (List String))
+    (hs : WellShaped Generated.validators Generated.schema m)
+    (hm : ∀ c ∈ Generated.keyed, ∃ x, findColl m c = some x)
+    (hres : AllResolve Generated.schema m ps)
+    (hq : ∀ it ∈ allItems m, ∀ a ∈ (specOf Generated.schema it.spec).attrs, ∀ n,
+      a.validator = .named n → ¬ Violated Generated.schema m it a (predOf Generated.validators n)) :
+    getIssues cv Generated.validators Generated.schema m ps = .ok [] := by
+  refine sound cv Generated.validators Generated.schema m ps hs
+    (closed_of_schemaClosed generated_schema_closed hm) generated_validators_safe.1 hres ?_
+  intro it hit a ha n hv
+  have hq' := hq it hit a ha n hv
+  have htr : (predOf Generated.validators n).translated = true := by
+    have hall := generated_validators_safe.2.1
+    unfold predOf
+    cases hf : Generated.validators.find? (fun p => p.1 = n) with
+    | none =>
+      -- a validator without an entry: excluded by `generated_validators_cover`
+      exfalso
+      rcases specOf_mem_or_empty Generated.schema it.spec with hsm | hsm
+      · have hcov := generated_validators_cover
+        simp only [List.all_eq_true] at hcov
+        have := hcov _ hsm a ha
+        rw [hv] at this
+        simp only [Bool.and_eq_true, List.any_eq_true, decide_eq_true_eq] at this
+        obtain ⟨⟨e, he, hen⟩, _⟩ := this
+        have := List.find?_eq_none.mp hf e he
+        simp [hen] at this
+      · rw [hsm] at ha; cases ha
+    | some e =>
+      simp only [List.all_eq_true] at hall
+      exact hall e (List.mem_of_find?_eq_some hf)
+  cases hp : predOf Generated.validators n with
+  | «opaque» k => rw [hp] at htr; cases htr
+  | untranslatable k => rw [hp] at htr; cases htr
+  | resolved coll g s rules => rw [hp] at hq'; exact hq'
+  | lengthsEqual as => rw [hp] at hq'; exact hq'
+  | definedIn coll rep => rw [hp] at hq'; exact hq'
 
 /-! ### non-vacuity and regression examples -/
 
+def exVT : VTable := [
+  ("validate_megacomplexes", .resolved "megacomplex" true true stdRules),
+  ("validate_lengths", .lengthsEqual ["labels", "rates"]),
+  ("validate_group", .definedIn "group" "group")]
+
 def exSchema : Schema := [
   ⟨"dataset/", "dataset", [
-      ⟨"megacomplex", .list, false, .item "megacomplex", .megacomplexes⟩,
+      ⟨"megacomplex", .list, false, .item "megacomplex", .named "validate_megacomplexes"⟩,
       ⟨"irf", .scalar, true, .item "irf", .none⟩,
       ⟨"scale", .scalar, true, .param, .none⟩], false, false⟩,
   ⟨"megacomplex/decay", "megacomplex", [⟨"k_matrix", .list, false, .item "k_matrix", .none⟩], false, false⟩,
   ⟨"megacomplex/baseline", "megacomplex", [], false, true⟩,
   ⟨"megacomplex/clp-guide", "megacomplex", [], true, false⟩,
+  ⟨"megacomplex/osc", "megacomplex", [
+      ⟨"labels", .list, false, .plain, .named "validate_lengths"⟩,
+      ⟨"rates", .list, false, .param, .none⟩], false, false⟩,
   ⟨"k_matrix/", "k_matrix", [⟨"matrix", .dict, false, .param, .none⟩], false, false⟩,
-  ⟨"irf/gaussian", "irf", [⟨"center", .scalar, false, .param, .none⟩], false, false⟩]
+  ⟨"irf/gaussian", "irf", [⟨"center", .scalar, false, .param, .none⟩], false, false⟩,
+  ⟨"group/", "group", [], false, false⟩,
+  ⟨"weights/", "weights", [⟨"group", .scalar, false, .plain, .named "validate_group"⟩], false, false⟩]
 
 def exModel (mcs : List String) : Model := [
   ⟨"dataset", [⟨"dataset/", "d1", [("megacomplex", .list mcs), ("irf", .scalar "i1"), ("scale", .scalar "s")]⟩]⟩,
@@ -463,59 +704,100 @@ def exModel (mcs : List String) : Model := [
     reported and nothing is raised. -/
 def d11Witness : Model := exModel ["m1", "nope"]
 
-example : getIssues noCustom exSchema d11Witness (some ["s", "c", "k.1"])
+example : getIssues noCustom exVT exSchema d11Witness (some ["s", "c", "k.1"])
     = .ok [.missingItem "megacomplex" "nope"] := by decide
+-- the table of the code before fix D11 (no `if label in model.megacomplex`): `tableSafe` fails and
+-- so does validation, with the KeyError of D11 — the hypothesis of `never_internal_error` is sharp
+example : tableSafe [("validate_megacomplexes", .resolved "megacomplex" true false stdRules)] = false := by
+  decide
+example : getIssues noCustom [("validate_megacomplexes", .resolved "megacomplex" true false stdRules)]
+    exSchema d11Witness none = .error (.keyError "megacomplex" "nope") := by decide
 
 -- a valid model: nothing reported, with and without parameters; it fills
-example : getIssues noCustom exSchema (exModel ["m1", "b1"]) (some ["s", "c", "k.1"]) = .ok [] := by
+example : getIssues noCustom exVT exSchema (exModel ["m1", "b1"]) (some ["s", "c", "k.1"]) = .ok [] := by
   decide
-example : getIssues noCustom exSchema (exModel ["m1", "b1"]) none = .ok [] := by decide
+example : getIssues noCustom exVT exSchema (exModel ["m1", "b1"]) none = .ok [] := by decide
 example : (fillItem exSchema (exModel ["m1", "b1"]) ["s", "c", "k.1"] 3
     ⟨"dataset/", "d1", [("megacomplex", .list ["m1", "b1"]), ("irf", .scalar "i1"), ("scale", .scalar "s")]⟩).isOk
     = true := by decide
 -- nested dangling parameter in a dict of an item two levels below the dataset
-example : getIssues noCustom exSchema (exModel ["m1"]) (some ["s", "c"])
+example : getIssues noCustom exVT exSchema (exModel ["m1"]) (some ["s", "c"])
     = .ok [.missingParam "k.1"] := by decide
 -- duplicated unique and combined exclusive megacomplexes
-example : getIssues noCustom exSchema (exModel ["b1", "b2"]) none
+example : getIssues noCustom exVT exSchema (exModel ["b1", "b2"]) none
     = .ok [.unique "b1" "megacomplex/baseline", .unique "b2" "megacomplex/baseline"] := by decide
-example : getIssues noCustom exSchema (exModel ["m1", "g1"]) none
+example : getIssues noCustom exVT exSchema (exModel ["m1", "g1"]) none
     = .ok [.exclusive "g1" "megacomplex/clp-guide"] := by decide
+-- the other predicates of the language: unequal lengths, an undefined label behind `definedIn`
+example : getIssues noCustom exVT exSchema
+    [⟨"megacomplex", [⟨"megacomplex/osc", "o1", [("labels", .list ["a", "b"]), ("rates", .list ["r"])]⟩]⟩] none
+    = .ok [.lengths "o1" [2, 1]] := by decide
+example : getIssues noCustom exVT exSchema
+    [⟨"group", [⟨"group/", "g1", []⟩]⟩, ⟨"weights", [⟨"weights/", "#0", [("group", .scalar "g2")]⟩]⟩] none
+    = .ok [.missingItem "group" "g2"] := by decide
+example : Violated exSchema (exModel ["b1", "b2"])
+    ⟨"dataset/", "d1", [("megacomplex", .list ["b1", "b2"])]⟩
+    ⟨"megacomplex", .list, false, .item "megacomplex", .named "validate_megacomplexes"⟩
+    (.resolved "megacomplex" true true stdRules) := by
+  refine ⟨["b1", "b2"], ⟨"megacomplex", [⟨"megacomplex/decay", "m1", [("k_matrix", .list ["k1"])]⟩,
+    ⟨"megacomplex/baseline", "b1", []⟩, ⟨"megacomplex/baseline", "b2", []⟩,
+    ⟨"megacomplex/clp-guide", "g1", []⟩]⟩, by decide, by decide, ?_⟩
+  intro h
+  have := h ⟨"megacomplex/baseline", "b1", []⟩ (by decide) ⟨.unique, .sameClass, 1, .unique⟩ (by decide)
+    (by decide)
+  revert this
+  decide
+-- the walk of the example dataset: two megacomplex positions and the irf; one parameter position
+example : walkItem exSchema true ⟨"dataset/", "d1", [("megacomplex", .list ["m1", "b1"]), ("irf", .scalar "i1"), ("scale", .scalar "s")]⟩
+    = .ok [("megacomplex", "m1"), ("megacomplex", "b1"), ("irf", "i1")] := by decide
+example : walkItem exSchema false ⟨"k_matrix/", "k1", [("matrix", .dict [("(s1, s1)", "k.1"), ("(s2, s1)", "k.2")])]⟩
+    = .ok [("matrix", "k.1"), ("matrix", "k.2")] := by decide
+-- a live walker that skipped dict values would give a row the model walker does not agree with
+example : rowAgrees exSchema ⟨"k_matrix/", "full", [("matrix", .dict [("k0", "a"), ("k1", "b")])], [], [], [], []⟩ = false := by
+  decide
+example : rowAgrees exSchema ⟨"k_matrix/", "full", [("matrix", .dict [("k0", "a"), ("k1", "b")])], [],
+    [("matrix", "a"), ("matrix", "b")], [], [("matrix", "a"), ("matrix", "b")]⟩ = true := by decide
+-- an abstract validator is interpreted through `cv`
+example : getIssues (fun n _ => if n = "f" then ["x"] else []) [] [⟨"a/", "a", [⟨"v", .scalar, false, .plain, .named "f"⟩], false, false⟩]
+    [⟨"a", [⟨"a/", "i", []⟩]⟩] none = .ok [.custom "f" "x"] := by decide
 -- the Except outcome has content: a collection the model class does not have, a wrong shape
-example : getIssues noCustom exSchema [⟨"dataset", [⟨"dataset/", "d1", [("irf", .scalar "i1")]⟩]⟩] none
+example : getIssues noCustom exVT exSchema [⟨"dataset", [⟨"dataset/", "d1", [("irf", .scalar "i1")]⟩]⟩] none
     = .error (.attributeError "irf") := by decide
-example : getIssues noCustom exSchema [⟨"dataset", [⟨"dataset/", "d1", [("irf", .list ["i1"])]⟩]⟩] none
+example : getIssues noCustom exVT exSchema [⟨"dataset", [⟨"dataset/", "d1", [("irf", .list ["i1"])]⟩]⟩] none
     = .error (.shape "d1" "irf") := by decide
 -- generated parameters
 example : generateParameters exSchema (exModel ["m1"]) = .ok ["s", "k.1", "c"] := by decide
--- the hypotheses are satisfiable: the example model is closed
-example : schemaClosed exSchema ["dataset", "megacomplex", "k_matrix", "irf"] = true := by decide
+-- the hypotheses are satisfiable: the example model is closed, the example table safe
+example : schemaClosed exVT exSchema ["dataset", "megacomplex", "k_matrix", "irf", "group"] = true := by decide
+example : tableSafe exVT = true := by decide
 example : DanglingItem exSchema d11Witness "megacomplex" "nope" :=
   ⟨⟨"dataset/", "d1", [("megacomplex", .list ["m1", "nope"]), ("irf", .scalar "i1"), ("scale", .scalar "s")]⟩,
-    by decide, ⟨"megacomplex", .list, false, .item "megacomplex", .megacomplexes⟩, by decide, rfl,
+    by decide, ⟨"megacomplex", .list, false, .item "megacomplex", .named "validate_megacomplexes"⟩, by decide, rfl,
     ["m1", "nope"], by decide, by decide, by decide⟩
 
 private theorem exColls (m : Model)
-    (h : (["dataset", "megacomplex", "k_matrix", "irf"].all fun c => (findColl m c).isSome) = true) :
-    ∀ c ∈ ["dataset", "megacomplex", "k_matrix", "irf"], ∃ x, findColl m c = some x := by
+    (h : (["dataset", "megacomplex", "k_matrix", "irf", "group"].all fun c => (findColl m c).isSome) = true) :
+    ∀ c ∈ ["dataset", "megacomplex", "k_matrix", "irf", "group"], ∃ x, findColl m c = some x := by
   intro c hc
   simp only [List.all_eq_true] at h
   exact Option.isSome_iff_exists.mp (h c hc)
 
+def d11Witness' : Model := d11Witness ++ [⟨"group", []⟩]
+
 -- the hypotheses of the theorems are satisfiable on the (dangling!) witness: well-shaped,
 -- closed, ranked and well-typed, so `complete` / `never_internal_error` apply to it
-example : WellShaped exSchema d11Witness := wellShaped_of_check (by decide)
-example : Closed exSchema d11Witness :=
-  closed_of_schemaClosed (colls := ["dataset", "megacomplex", "k_matrix", "irf"]) (by decide)
+example : WellShaped exVT exSchema d11Witness' := wellShaped_of_check (by decide)
+example : Closed exVT exSchema d11Witness' :=
+  closed_of_schemaClosed (colls := ["dataset", "megacomplex", "k_matrix", "irf", "group"]) (by decide)
     (exColls _ (by decide))
-example : ∃ iss, getIssues noCustom exSchema d11Witness none = .ok iss ∧
+example : ∃ iss, getIssues noCustom exVT exSchema d11Witness' none = .ok iss ∧
     Issue.missingItem "megacomplex" "nope" ∈ iss := by
-  obtain ⟨iss, h, hi, _⟩ := complete noCustom exSchema d11Witness none (wellShaped_of_check (by decide))
-    (closed_of_schemaClosed (colls := ["dataset", "megacomplex", "k_matrix", "irf"]) (by decide)
-    (exColls _ (by decide)))
+  obtain ⟨iss, h, hi, _⟩ := complete noCustom exVT exSchema d11Witness' none (wellShaped_of_check (by decide))
+    (closed_of_schemaClosed (colls := ["dataset", "megacomplex", "k_matrix", "irf", "group"]) (by decide)
+    (exColls _ (by decide))) (by decide)
   exact ⟨iss, h, hi _ _ ⟨⟨"dataset/", "d1", [("megacomplex", .list ["m1", "nope"]), ("irf", .scalar "i1"),
       ("scale", .scalar "s")]⟩, by decide,
-    ⟨"megacomplex", .list, false, .item "megacomplex", .megacomplexes⟩, by decide, rfl,
+    ⟨"megacomplex", .list, false, .item "megacomplex", .named "validate_megacomplexes"⟩, by decide, rfl,
     ["m1", "nope"], by decide, by decide, by decide⟩⟩
 example : schemaRanked exSchema
     (rankOf [("dataset", 2), ("megacomplex", 1), ("k_matrix", 0), ("irf", 0)]) = true := by decide
@@ -526,10 +808,13 @@ example : ExclusiveUniqueOK exSchema
 example : ¬ ExclusiveUniqueOK exSchema
     [⟨"megacomplex/baseline", "b1", []⟩, ⟨"megacomplex/baseline", "b2", []⟩] := by
   unfold ExclusiveUniqueOK; decide
--- the regenerated table is not trivial: it lists the reference positions of the real classes
+-- the regenerated tables are not trivial: they list the reference positions and the validators of
+-- the real classes
 example : ((specOf Generated.schema "dataset/").attrs.map (·.name)).contains "global_megacomplex" = true := by
   decide
 example : (specOf Generated.schema "megacomplex/baseline").unique = true ∧
     (specOf Generated.schema "megacomplex/clp-guide").exclusive = true := by decide
+example : predOf Generated.validators "glotaran.model.dataset_model.validate_megacomplexes"
+    = .resolved "megacomplex" true true stdRules := by decide
 
 end Glotaran.C20
